@@ -473,6 +473,6 @@ func runCase(c Case, ctx *hx.Ctx) *hx.Failure {
 	return nil
 }
 
-func TestPropAging(t *testing.T) { hx.Check(t, 12000, genCase, runCase) }
+func TestPropAging(t *testing.T) { hx.Check(t, 24000, genCase, runCase) }
 
 func TestReplay(t *testing.T) { hx.Replay(t, "TestPropAging", 5, runCase) }
